@@ -32,7 +32,7 @@ fn exp_from_spec(e: &str, r: &Value) -> Exp {
     let prec = Precision::default();
     match r["k"].as_str().unwrap() {
         "reject" => reject_exp(),
-        "err" => Exp { res: Err(Stop::Err("an argument fails to evaluate")), prec, ops: 1 },
+        "err" => Exp { res: Err(Stop::Err("an argument fails to evaluate")), prec, ops: 1, shape: None, no_tree: false },
         _ => {
             let (n, d) = (r["rat"]["n"].as_i64().unwrap(), r["rat"]["d"].as_i64().unwrap());
             let ev = match e {
@@ -41,7 +41,7 @@ fn exp_from_spec(e: &str, r: &Value) -> Exp {
                 "num" => if d == 1 { EV::N(NAlt(vec![NV::I(n as i128), NV::F(n as f64)])) } else { EV::N(NAlt(vec![NV::F(n as f64 / d as f64)])) },
                 _ => EV::D(DV::Quot { n: BigInt::from_i128(n as i128), d: BigInt::from_i128(d as i128) }),
             };
-            Exp { res: Ok(ev), prec: Precision { zero_sign_free: true, ..prec }, ops: 1 }
+            Exp { res: Ok(ev), prec: Precision { zero_sign_free: true, ..prec }, ops: 1, shape: None, no_tree: false }
         }
     }
 }
